@@ -23,7 +23,7 @@ import (
 func init() {
 	Registry["C12"] = &Check{
 		Scenarios: c12Scenarios,
-		Rule: "the application registers an RAA handler and, when the library watchdog is off, its own DWA handler; application answers delivered after the handshake alternate between DWA and RAA. peer scripts: MaxRetransmits R in {0,1,2} (thorough 0..3); for the k-th CER received the peer does one of {nothing, success CEA, failing CEA 5010, CEA without Origin-Host, CEA without Result-Code, success CEA without any application, success CEA with an unsupported application, success CEA whose only application information is a Vendor-Specific-Application-Id group {Vendor-Id, unsupported id} / {Vendor-Id} / {Vendor-Id, supported id}, disconnect} after a delay in {0, 1/2, 1, 3/2} RetransmitInterval on the virtual clock; scenarios in which the transport takes 1/2 or 3/2 interval to accept a CER (slow writes); quick: every script with one answering CER index, thorough: also every script with two answering indexes; after a success every set of extras from {duplicate success CEA, late failing CEA, RAA, both a CEA and an RAA}. Every schedule of client goroutines, reader, timers and peer steps up to preemption bound 2 (quick) / unbounded (thorough); timers that are due may fire at any later step, so every tie ordering is explored. Eight scenarios go through the library's own dial entry points (sm.Client.DialTimeout and DialTLSTimeout; the instrumented dialer hands out an in-memory connection, deadlines run on the virtual clock, the TLS variant has a real crypto/tls server as peer): dial timeout {none, shorter than the handshake, shorter than the idle period, generous}, success CEA to the last permitted CER, an idle period, then a duplicate CEA and an answer for the application.",
+		Rule: "the application registers an RAA handler and, when the library watchdog is off, its own DWA handler; application answers delivered after the handshake alternate between DWA and RAA. success CEAs that also list Inband-Security-Id [1, 0] or [1] count as success. peer scripts: MaxRetransmits R in {0,1,2} (thorough 0..3); for the k-th CER received the peer does one of {nothing, success CEA, failing CEA 5010, CEA without Origin-Host, CEA without Result-Code, success CEA without any application, success CEA with an unsupported application, success CEA whose only application information is a Vendor-Specific-Application-Id group {Vendor-Id, unsupported id} / {Vendor-Id} / {Vendor-Id, supported id}, disconnect} after a delay in {0, 1/2, 1, 3/2} RetransmitInterval on the virtual clock; scenarios in which the transport takes 1/2 or 3/2 interval to accept a CER (slow writes); quick: every script with one answering CER index, thorough: also every script with two answering indexes; after a success every set of extras from {duplicate success CEA, late failing CEA, RAA, both a CEA and an RAA}. Every schedule of client goroutines, reader, timers and peer steps up to preemption bound 2 (quick) / unbounded (thorough); timers that are due may fire at any later step, so every tie ordering is explored. Eight scenarios go through the library's own dial entry points (sm.Client.DialTimeout and DialTLSTimeout; the instrumented dialer hands out an in-memory connection, deadlines run on the virtual clock, the TLS variant has a real crypto/tls server as peer): dial timeout {none, shorter than the handshake, shorter than the idle period, generous}, success CEA to the last permitted CER, an idle period, then a duplicate CEA and an answer for the application.",
 		Assume: []string{"virtual time: writes and computation take no time; lateness exists only where the peer script introduces it", "data-race freedom between visible operations (audited separately with -race)"},
 		QuickBudget: 150, ThoroughBudget: 2400,
 	}
@@ -63,7 +63,7 @@ func c12Scenarios(tier string) []*Scenario {
 		bound = vs.Unbounded
 		maxR = 3
 	}
-	kinds := []string{"success", "fail", "nohost", "norc", "noapp", "badapp", "vsabad", "vsavendor", "vsagood", "disconnect", "fail1001", "fail3004", "fail1", "relayauth", "relayacct"}
+	kinds := []string{"success", "fail", "nohost", "norc", "noapp", "badapp", "vsabad", "vsavendor", "vsagood", "disconnect", "fail1001", "fail3004", "fail1", "relayauth", "relayacct", "succtls10", "succtls1"}
 	extraSets := [][]string{nil, {"dup"}, {"latefail"}, {"raa"}, {"dup", "raa"}, {"latefail", "raa"}, {"raa", "dup", "raa"}}
 	var out []*Scenario
 	add := func(R int, script []c12Act, extras []string) {
@@ -305,6 +305,21 @@ func c12ScenarioSlow(R int, script []c12Act, extras []string, bound int, slow []
 						deliver("norc", peerAnswerOpt(req, 2001, true, true, false))
 					case "noapp":
 						deliver("noapp", peerAnswer(req, 2001, false))
+					case "succtls10", "succtls1":
+						// a success CEA that also lists the peer's in-band security mechanisms (TLS first,
+						// or TLS alone): the statement asks for a success result and a shared application
+						b := peerAnswer(req, 2001, true)
+						h, _ := refcodec.DecodeHeader(b)
+						recs, _, _ := refcodec.Frame(b[20:], nil)
+						var nodes []refcodec.Node
+						for _, r := range recs {
+							nodes = append(nodes, refcodec.Node{Code: r.Code, Flags: r.Flags, Vendor: r.Vendor, Payload: r.Payload})
+						}
+						nodes = append(nodes, u32avp(299, 1))
+						if act.Kind == "succtls10" {
+							nodes = append(nodes, u32avp(299, 0))
+						}
+						deliver("success", refcodec.EncodeMessage(h, nodes))
 					case "relayauth", "relayacct":
 						// a success CEA whose only application is the relay application id, which is
 						// common with every application
